@@ -207,7 +207,7 @@ func c12Setup(r *Run, c *Case, hookFiles []string) (*c12Env, error) {
 		if err := os.MkdirAll(filepath.Dir(p), 0o755); err != nil {
 			return nil, err
 		}
-		if err := os.WriteFile(p, []byte(script), 0o755); err != nil {
+		if err := writeScript(p, []byte(script), 0o755); err != nil {
 			return nil, err
 		}
 	}
